@@ -191,6 +191,7 @@ FS_CALLS = {
     "os.chown": "chmod",
     "os.utime": "touch",
     "os.truncate": "write",
+    "os.open": "write",
     "os.symlink": "create",
     "os.link": "create",
     "subprocess.run": "subprocess",
